@@ -667,3 +667,11 @@ def run(chk):
     _kernels(chk)
     _dense(chk)
     _controller(chk)
+    # "requested tolerance": every adaptive driver must build its acceptance scale from the requested (rtol, atol);
+    # the loop harnesses are those of C10 / C11 (same real drivers, same cut), only this call-site obligation is registered
+    from contracts import C10, C11
+    chk.under_contract(RK + ":_RK45._integrate_rk45", RK + ":_DOP853._integrate_dop853",
+                       RK + ":_RK45._integrate_rk45_until_event", RK + ":_DOP853._integrate_dop853_until_event")
+    for kind in ("rk45", "dop853"):
+        C10._stepping_loop(chk, kind, only=[C10.ESC])
+        C11._adaptive_driver(chk, kind, only=[C10.ESC])
